@@ -57,6 +57,9 @@ pub fn case(seed: u64, st: &mut Stats) {
     o.required = false;
     o.last_pos = false;
     o.multi_pos = false;
+    // an option that allows hyphen values takes `--` itself as a value while it is open: such a
+    // prefix is outside this property's premise (see the note on allow_hyphen below)
+    o.extended = false;
     let mut root = conv_cmd(&mut rng, &o);
     // the level that receives the tail: the root, or one of its subcommands
     let at_sub = !root.subs.is_empty() && rng.chance(1, 3);
